@@ -8,6 +8,8 @@ CONSTANTS MaxPre = 2 MaxN = 4
   Places = {"afterstop"}
   StopFlag = "per_branch"
   CopyMode = "per_branch"
+  AdapterHides = TRUE
+  VarCopy = "per_value"
   Bufs <- BufQuick
 INVARIANT DriversAgree
 INVARIANT FillReaches
